@@ -1,4 +1,5 @@
 import QuantemModel.Lemmas.AberrationConv
+import Mathlib.Algebra.Order.Floor.Ring
 /-!
 C12 — the extraction step of `fit_aberrations_from_shifts` returns the generating values.
 -/
@@ -107,4 +108,39 @@ theorem fitExtract_rot_neg (θ C10 C12 φ : ℝ) (hθ1 : -Real.pi / 2 < θ) (hθ
     simp only [hρ, hrem, if_pos hflip, hrem2, neg_neg_M2, Prod.mk.injEq]
     exact ⟨hext.1, hext.2.1, hext.2.2, trivial⟩
 
+/-- on `[-y, 2y)` the model's `rem1` is Python/torch `remainder(x, y) = x − ⌊x/y⌋·y` -/
+theorem rem1_eq_floor (x y : ℝ) (hy : 0 < y) (h1 : -y ≤ x) (h2 : x < 2 * y) :
+    rem1 x y = x - (⌊x / y⌋ : ℝ) * y := by
+  rw [rem1_eq]
+  by_cases hx : x < 0
+  · have : ⌊x / y⌋ = -1 := by
+      rw [Int.floor_eq_iff]; push_cast
+      constructor
+      · rw [le_div_iff₀ hy]; linarith
+      · rw [div_lt_iff₀ hy]; linarith
+    rw [if_pos hx, this]; push_cast; ring
+  · rw [if_neg hx]
+    by_cases hxy : y ≤ x
+    · have : ⌊x / y⌋ = 1 := by
+        rw [Int.floor_eq_iff]; push_cast
+        constructor
+        · rw [le_div_iff₀ hy]; linarith
+        · rw [div_lt_iff₀ hy]; linarith
+      rw [if_pos hxy, this]; push_cast; ring
+    · have : ⌊x / y⌋ = 0 := by
+        rw [Int.floor_eq_iff]; push_cast
+        constructor
+        · rw [le_div_iff₀ hy]; linarith
+        · rw [div_lt_iff₀ hy]; linarith
+      rw [if_neg hxy, this]; push_cast; ring
+
+/-- both arguments `remainder` receives in `fit_aberrations_from_shifts` lie in that range, whatever `U` is -/
+theorem fit_remainder_args_in_range (u : M2 ℝ) :
+    let rot := -Complex.arg ⟨u.a, u.c⟩
+    (-(2 * Real.pi) ≤ rot + Real.pi ∧ rot + Real.pi < 2 * (2 * Real.pi)) ∧
+    (-(2 * Real.pi) ≤ rot ∧ rot < 2 * (2 * Real.pi)) := by
+  have h1 := Complex.neg_pi_lt_arg ⟨u.a, u.c⟩
+  have h2 := Complex.arg_le_pi ⟨u.a, u.c⟩
+  have := Real.pi_pos
+  refine ⟨⟨by linarith, by linarith⟩, ⟨by linarith, by linarith⟩⟩
 end QuantemModel.Aberration
